@@ -125,8 +125,9 @@ def Tok.kind : Tok → String
   | .str _ => "STRING" | .lbrack => "LBRACK" | .rbrack => "RBRACK"
 
 /-- `unquoteString`: drop the first and last character and every backslash in between. -/
-def unquote (raw : String) : String :=
-  let inner := (raw.toList.drop 1).dropLast
-  String.ofList (inner.filter (· != '\\'))
+def unquoteChars (raw : List Char) : List Char :=
+  ((raw.drop 1).dropLast).filter (· != '\\')
+
+def unquote (raw : String) : String := String.ofList (unquoteChars raw.toList)
 
 end Yld
